@@ -58,6 +58,7 @@ SetEnv(env, k, v) == LET i == EnvIdx(env, k) IN
 Clean(g) == CASE g \in {"/", ""} -> ""
               [] g \in {"/a", "a", "a/", "/a/"} -> "a"
               [] g \in {"/b", "b"} -> "b"
+              [] g = "/c" -> "c" [] g = "/d" -> "d" [] g = "/e" -> "e" [] g = "/f" -> "f"
               [] OTHER -> g
 MountIdx(ms, c) == IF \E i \in 1..Len(ms) : ms[i].clean = c
                    THEN CHOOSE i \in 1..Len(ms) : ms[i].clean = c ELSE 0
@@ -107,6 +108,7 @@ Derive(p, m) ==
   /\ Len(hist) < Depth
   /\ nodes[p].kind = KindOf(m)
   /\ (m.op = "WithFSConfig" => m.fsnode \in 1..Len(nodes) /\ nodes[m.fsnode].kind = "fs")
+  /\ ("idx" \in DOMAIN m => m.idx = Len(hist) + 1)   \* "fresh key per step" families (capacity crossing)
   /\ hist' = Append(hist, [parent |-> p, m |-> m])
   /\ nodes' = IF m.op = "Use" THEN nodes ELSE Append(nodes, Apply(nodes[p], m))
   /\ UNCHANGED fin
